@@ -248,29 +248,14 @@ Definition exec_txs (skipping : bool) (level : nat) (txs : list tx) (s : script)
   else exec_seq false txs s.
 
 (* ------------------------------------------------------------------ *)
-(* What the property calls "the result of transaction i"                *)
+(* What the property calls "the result of transaction i": the receipt the
+   script determines for the transaction t at position i                *)
+Definition slot_of (skipping : bool) (s : script) (t : tx) (i : nat) : option receipt :=
+  if skipping && tx_skippable t then Some RSkip
+  else match run_tx (s i) with TxOk r => Some (RExec r) | _ => None end.
+
 Definition receipt_of (skipping : bool) (txs : list tx) (s : script) (i : nat) : option receipt :=
   match nth_error txs i with
   | None => None
-  | Some t =>
-      if skipping && tx_skippable t then Some RSkip
-      else match run_tx (s i) with TxOk r => Some (RExec r) | _ => None end
-  end.
-
-(* a schedule built from a list of numbers: at every step the (k mod m)-th of
-   the m enabled actors moves (used to run the model on arbitrary
-   interleavings in the correspondence check) *)
-Fixpoint guided (v : variant) (n : nat) (s : script) (st : cstate) (picks : list nat) : list actor :=
-  match picks with
-  | [] => []
-  | k :: rest =>
-      match enabled v n s st with
-      | [] => []
-      | a0 :: en =>
-          let a := nth (k mod (length (a0 :: en))) (a0 :: en) a0 in
-          match step v n s st a with
-          | Some st' => a :: guided v n s st' rest
-          | None => []
-          end
-      end
+  | Some t => slot_of skipping s t i
   end.
